@@ -12,9 +12,43 @@ import (
 
 type (
 	Map    = sync.Map
-	Pool   = sync.Pool
 	Locker = sync.Locker
 )
+
+// Pool is a deterministic stand-in for sync.Pool: a LIFO stack that never drops anything. sync.Pool's contract lets
+// Get return any item that was Put, or none; a LIFO stack is one legal behaviour, and the one that keeps executions
+// replayable (the real pool depends on the processor a goroutine happens to run on and on the garbage collector).
+// Get and Put are atomic steps, not scheduling points.
+type Pool struct {
+	New   func() any
+	mu    sync.Mutex
+	items []any
+}
+
+func (p *Pool) Get() any {
+	p.mu.Lock()
+	if n := len(p.items); n > 0 {
+		x := p.items[n-1]
+		p.items[n-1] = nil
+		p.items = p.items[:n-1]
+		p.mu.Unlock()
+		return x
+	}
+	p.mu.Unlock()
+	if p.New != nil {
+		return p.New()
+	}
+	return nil
+}
+
+func (p *Pool) Put(x any) {
+	if x == nil {
+		return
+	}
+	p.mu.Lock()
+	p.items = append(p.items, x)
+	p.mu.Unlock()
+}
 
 // Cond: Wait releases L, waits (through the scheduler for a scheduled thread) until a Signal / Broadcast
 // issued after the call covers its ticket, then re-acquires L. Signal wakes the oldest waiter.
